@@ -3,7 +3,7 @@ T-upd: one real `step_vehicle(sim, env, vehicle)` (= VehicleState.update -> defa
 terminal transition + follow-up _perform_update -> move / charge / idle / pick-up / drop-off /
 out-of-energy) from an arbitrary INV pre-state.
 
-CASE (concrete) = previous activity kind (0..12).
+CASE (concrete) = previous activity kind (0..12); + 16: the request r0 is a zero-length trip (DispatchTrip only).
 Symbolic:  cell, plug, counters + ghosts (unbounded ints), request record, membership scenario,
            powertrain kind, energy level e (float), step length dt (int seconds), station price,
            `pick`: which cell on the link the interpolated point of a partial traversal falls in.
@@ -30,7 +30,8 @@ stubs.install_time_diff_shim()
 
 CASE = int(os.environ.get("VF_CASE", "0"))
 ORACLE = os.environ.get("VF_ORACLE", "C02")
-KIND = CASE
+KIND = CASE % 16
+ZERO_TRIP = CASE >= 16  # r0's destination equals its origin
 _DTM = None
 DT_MAX = int(os.environ.get("VF_DT_MAX_CHARGE", "150") if KIND in (3, 4, 6, 7) else os.environ.get("VF_DT_MAX", "300"))
 
@@ -106,7 +107,7 @@ def _run(cell, plug, tot, g, q, stalls, sg, s1g, r0d, r0p, ms, ice, e, dt, pick,
     w = A.build_world(
         (spec,), tot, g, q, stalls, sg, r0_disp=rd, r0_present=rp, s0_memb=m_s, b0_memb=m_b, r0_memb=m_r,
         s1_g=s1g if KIND in (6, 8) else 0, sim_time=stubs.mk_time(sim_t), dt=dt, price_l2=price,
-        r0_zero=(True if rz else False) if KIND == 9 else False,
+        r0_zero=ZERO_TRIP if KIND == 9 else False,
     )
     if w is None:
         return None
